@@ -309,7 +309,11 @@ func run(in Input) (res lib.Result) {
 				reloaded += d
 			}
 		}
-		steps = append(steps, "{| so_kind := "+kindCoq(s.Kind)+"; so_err_with := "+lib.Bool(errW != "")+
+		slots := int64(0)
+		if s.Kind == "put" {
+			slots = (s.Until - s.From + 9) / 10
+		}
+		steps = append(steps, "{| so_kind := "+kindCoq(s.Kind)+"; so_slots := "+lib.N(uint64(slots))+"; so_err_with := "+lib.Bool(errW != "")+
 			"; so_err_plain := "+lib.Bool(errP != "")+"; so_answers := "+lib.List(answers)+" |}")
 	}
 
